@@ -2875,3 +2875,130 @@ pub fn gen_closure_program(rng: &mut Rng, cfg: CloCfg) -> (String, BTreeMap<&'st
     let src = g.program();
     (src, g.feats)
 }
+
+// ------------------------------------------------------------------------------------------
+// C08: capture sites.  `collect_captured` must walk every sub-expression of every node kind: one
+// program per (syntactic context, kind of outer variable, closure nesting depth) in which the
+// innermost closure mentions the outer variable NOWHERE but in that context, so a traversal that
+// skips the context loses the capture (and with it the sharing of a Ref cell).
+
+pub const SITE_CTXS: [&str; 33] = [
+    "plain", "go-lit", "go-named", "while-cond", "while-body", "if-cond", "if-then", "if-else", "match-scrut", "match-arm",
+    "match-default", "enum-arm", "enum-default", "str-match-default", "let-value", "let-body", "call-arg", "builtin-arg",
+    "ctor-arg", "struct-lit", "tuple-item", "array-item", "field", "proj", "unary", "bin-lhs", "bin-rhs", "and-rhs", "or-rhs",
+    "to-dyn", "dyn-recv", "dyn-arg", "inner-closure",
+];
+pub const SITE_KINDS: [&str; 7] = ["val", "ref", "clo", "topfn", "param", "patvar", "armvar"];
+
+/// `None`: the combination does not exist (e.g. a `dyn` receiver that is a Ref)
+pub fn capture_site_program(ctx: &str, kind: &str, depth: usize, rng: &mut Rng) -> Option<String> {
+    let k = 2 + rng.below(7);
+    let c1 = 1 + rng.below(3);
+    // the outer binding and the int-typed use of it
+    let (mut bind, mut e): (String, String) = match kind {
+        "val" => (format!("let x = {}; ", k), "x".into()),
+        "ref" => (format!("let x = ref({}); ", k), "ref_get(x)".into()),
+        "clo" => (format!("let x = |z: int32| z + {}; ", k), "x(3)".into()),
+        "topfn" => ("let x = topf; ".into(), "x(2)".into()),
+        "param" => (String::new(), "px".into()),
+        "patvar" => (format!("let (x, y0) = ({}, 1); ", k), "x".into()),
+        "armvar" => (String::new(), "x".into()),
+        _ => return None,
+    };
+    let outer_val = match kind {
+        "val" | "patvar" | "armvar" => "x",
+        "ref" => "x",
+        "clo" | "topfn" => "x",
+        "param" => "px",
+        _ => "x",
+    };
+    // contexts whose captured variable is a container of the value
+    match ctx {
+        "field" => {
+            let (st, fld, use_) = match kind {
+                "ref" => ("BxR", "r", "ref_get(bx.r)".to_string()),
+                "clo" | "topfn" => ("BxF", "f", "{ let h = bx.f; h(3) }".to_string()),
+                _ => ("Bx", "v", "bx.v".to_string()),
+            };
+            write!(bind, "let bx = {} {{ {}: {} }}; ", st, fld, outer_val).unwrap();
+            e = use_;
+        }
+        "proj" => {
+            let use_ = match kind {
+                "ref" => "{ let (p, q) = tp; ref_get(p) + q }",
+                "clo" | "topfn" => "{ let (p, q) = tp; p(3) + q }",
+                _ => "{ let (p, q) = tp; p + q }",
+            };
+            write!(bind, "let tp = ({}, {}); ", outer_val, c1).unwrap();
+            e = use_.into();
+        }
+        "dyn-recv" => {
+            if !matches!(kind, "val" | "param" | "patvar" | "armvar") {
+                return None;
+            }
+            write!(bind, "let dx: dyn Show = {}; ", outer_val).unwrap();
+            e = "string_len(Show::show(dx))".into();
+        }
+        "go-named" => {
+            write!(bind, "let w = || {{ string_println(\"spawned \" + int32_to_string({})) }}; ", e).unwrap();
+        }
+        _ => {}
+    }
+    let body = match ctx {
+        "plain" | "field" | "proj" | "dyn-recv" => e.clone(),
+        "go-lit" => format!("{{ go || {{ string_println(\"spawned \" + int32_to_string({})) }}; a }}", e),
+        "go-named" => "{ go w; a }".to_string(),
+        "while-cond" => format!("{{ let i = ref(0); while ref_get(i) < {} {{ ref_set(i, ref_get(i) + 100) }}; ref_get(i) + a }}", e),
+        "while-body" => format!("{{ let i = ref(0); let acc = ref(0); while ref_get(i) < 2 {{ let _ = ref_set(acc, ref_get(acc) + {}); ref_set(i, ref_get(i) + 1) }}; ref_get(acc) + a }}", e),
+        "if-cond" => format!("if {} < 5 {{ a }} else {{ a + 10 }}", e),
+        "if-then" => format!("if a < 3 {{ {} }} else {{ 0 }}", e),
+        "if-else" => format!("if a < 3 {{ 0 }} else {{ {} }}", e),
+        "match-scrut" => format!("match {} {{ 0 => a, 3 => a + 1, _ => a + 2 }}", e),
+        "match-arm" => format!("match a {{ 1 => {}, _ => 0 }}", e),
+        "match-default" => format!("match a {{ 1 => 0, _ => {} }}", e),
+        "enum-arm" => format!("match Pair::Two(a, {}) {{ Pair::Two(p, q) => p + q + {}, Pair::Zero => 0 }}", c1, e),
+        "enum-default" => format!("match (if a < 3 {{ Pair::Zero }} else {{ Pair::Two(a, 1) }}) {{ Pair::Zero => 0, _ => {} }}", e),
+        "str-match-default" => format!("match int32_to_string(a) {{ \"1\" => 0, _ => {} }}", e),
+        "let-value" => format!("{{ let t = {}; t + a }}", e),
+        "let-body" => format!("{{ let t = a; t + {} }}", e),
+        "call-arg" => format!("idf(a) + idf({})", e),
+        "builtin-arg" => format!("string_len(int32_to_string({})) + a", e),
+        "ctor-arg" => format!("match Pair::Two({}, a) {{ Pair::Two(p, q) => p * 2 + q, Pair::Zero => 0 }}", e),
+        "struct-lit" => format!("{{ let b = Bx {{ v: {} }}; b.v + a }}", e),
+        "tuple-item" => format!("{{ let (p, q) = (a, {}); p + q }}", e),
+        "array-item" => format!("array_get([a, {}], 1) + a", e),
+        "unary" => format!("(-{}) + a", e),
+        "bin-lhs" => format!("({} * 2) + a", e),
+        "bin-rhs" => format!("a + (2 * {})", e),
+        "and-rhs" => format!("if (a < 100) && ({} < 50) {{ 1 }} else {{ 0 }}", e),
+        "or-rhs" => format!("if (a > 100) || ({} < 50) {{ 1 }} else {{ 0 }}", e),
+        // the typer coerces only operands whose type is already concrete: a call result goes through a typed let
+        "to-dyn" if matches!(kind, "ref" | "clo" | "topfn") => format!("{{ let t0: int32 = {}; let d: dyn Show = t0; string_len(Show::show(d)) + a }}", e),
+        "to-dyn" => format!("{{ let d: dyn Show = {}; string_len(Show::show(d)) + a }}", e),
+        "dyn-arg" => format!("{{ let d2: dyn Sc = a; Sc::sc(d2, {}) }}", e),
+        "inner-closure" => format!("{{ let g = |b: int32| b + {}; g(a) }}", e),
+        _ => return None,
+    };
+    // nesting: f1 creates and calls f2 creates and calls f3 …; only the innermost mentions the variable
+    let mut clos = format!("|a: int32| {}", body);
+    for lvl in (1..depth).rev() {
+        clos = format!("|a{l}: int32| {{ let f{n} = {inner}; f{n}(a{l}) }}", l = lvl, n = lvl + 1, inner = clos.replacen("|a: int32|", "|a: int32|", 1));
+    }
+    let mutate = if kind == "ref" { "let _ = ref_set(x, ref_get(x) + 5); " } else { "" };
+    let core = format!(
+        "{bind}let f1 = {clos}; let r1 = f1(1); let _ = string_println(int32_to_string(r1)); {mutate}let r2 = f1(4); let _ = string_println(int32_to_string(r2)); r1 + r2",
+        bind = bind,
+        clos = clos,
+        mutate = mutate
+    );
+    let host_body = if kind == "armvar" {
+        format!("match Pair::Two({}, {}) {{ Pair::Two(x, q0) => {{ {} }}, Pair::Zero => 0 }}", k, c1, core)
+    } else {
+        core
+    };
+    Some(format!(
+        "enum Pair {{ Zero, Two(int32, int32) }}\nstruct Bx {{ v: int32 }}\nstruct BxR {{ r: Ref[int32] }}\nstruct BxF {{ f: (int32) -> int32 }}\ntrait Show {{ fn show(Self) -> string; }}\nimpl Show for int32 {{ fn show(self: int32) -> string {{ \"i\" + int32_to_string(self) }} }}\ntrait Sc {{ fn sc(Self, int32) -> int32; }}\nimpl Sc for int32 {{ fn sc(self: int32, k: int32) -> int32 {{ self * 10 + k }} }}\nfn idf(v: int32) -> int32 {{ v }}\nfn topf(z: int32) -> int32 {{ z * 3 + 1 }}\nfn host(px: int32) -> int32 {{ {} }}\nfn main() {{ let _ = string_println(int32_to_string(host({}))); () }}\n",
+        host_body,
+        1 + rng.below(4)
+    ))
+}
